@@ -17,7 +17,7 @@ from ..poly import Poly
 from ..paths import must_on_all_paths, walk_no_nested, describe_exit, Walker, const_guard
 from ..loops import loop_context, loop_var, constraint_grids
 from ..effects import is_call_to
-from ..ceval import ceval, Unknown
+from ..ceval import ceval, Unknown, specialise
 from .. import slots as S
 
 LEVEL = "other"
@@ -421,18 +421,17 @@ def check_evaluator_slots(ctx):
     if "DT" in got:
         sc = ctx.scope(f)
         dtnode = [kw.value for kw in calls[0].keywords if kw.arg == "DT"][0]
-        v = dtnode
-        if isinstance(v, ast.Name):
-            v = sc.reaching(v.id, v) or v
-        ok = is_call_to(v, "get_DT_at", "self") and len(v.args) == 2 and ast.unparse(v.args[0]) == k
-        if ok:
-            vals = {}
-            for kk in (-1, 0, 2):
-                try:
+        vals = {}
+        for kk in (-1, 0, 2):
+            try:
+                v = specialise(dtnode, {k: kk, "self.M": 3}, sc)
+                if is_call_to(v, "get_DT_at", "self") and len(v.args) == 2 and ast.unparse(v.args[0]) == k:
                     vals[kk] = ceval(v.args[1], {k: kk, "self.M": 3}, sc)
-                except Unknown:
+                else:
                     vals[kk] = None
-            ok = vals == {-1: 2, 0: 0, 2: 0}
+            except Unknown:
+                vals[kk] = None
+        ok = vals == {-1: 2, 0: 0, 2: 0}
         ctx.check(ok, "eval_at_control slot DT", detail="integrator step of the wrong sub-interval",
                   expected="self.get_DT_at(k, M-1 if k==-1 else 0)", found=ast.unparse(v), fi=f, node=calls[0])
     # xq: Q[k] when quadratures are stored per node, else the running quadrature only at the final node
@@ -702,6 +701,64 @@ def subject_to_scenarios(f):
     return out
 
 
+def replay_loop(ctx, g):
+    """The loop of OptiWrapper.transcribe_placeholders that hands the stored constraints back to Opti.
+    Returns (loop, c name, scale name, meta name, pairing ok, text) or None.  Accepted headers:
+      for c, scale, meta in zip(res[:n], [c[1] for c in self.constraints], [c[2] for c in self.constraints])
+      for i, c in enumerate(res[:n]) / for i in range(n) with c = res[i]   and   _, scale, meta = self.constraints[i]"""
+    scg, ng = ctx.scope(g), ctx.norm(g)
+    K = lambda t: Norm(None).key(ast.parse(t, mode="eval").body)
+    loops = [l for l in walk_no_nested(g.node) if isinstance(l, ast.For) and
+             any(isinstance(c, ast.Call) and ast.unparse(c.func) == "Opti.subject_to" and len(c.args) == 2 for c in ast.walk(l))]
+    if len(loops) != 1:
+        return None
+    l = loops[0]
+    it = l.iter
+
+    def is_res_prefix(x):
+        # res[:n_constr] with res = placeholders([c[0] for c in self.constraints] + ...), n_constr = len(self.constraints)
+        return isinstance(x, ast.Subscript) and isinstance(x.slice, ast.Slice) and x.slice.lower is None and x.slice.step is None and x.slice.upper is not None \
+            and ng.key(x.slice.upper) == K("len(self.constraints)") and ng.key(x.value).startswith(K("placeholders([c[0] for c in self.constraints])")[:-2])
+
+    def is_res(x):
+        return ng.key(x).startswith(K("placeholders([c[0] for c in self.constraints])")[:-2])
+    if isinstance(it, ast.Call) and ast.unparse(it.func) == "zip" and len(it.args) == 3 and isinstance(l.target, ast.Tuple) and len(l.target.elts) == 3 \
+            and all(isinstance(e, ast.Name) for e in l.target.elts):
+        cv, sv, mv = [e.id for e in l.target.elts]
+        ok = is_res_prefix(it.args[0]) and Norm(None).key(it.args[1]) == K("[c[1] for c in self.constraints]") and Norm(None).key(it.args[2]) == K("[c[2] for c in self.constraints]")
+        return l, cv, sv, mv, ok, ast.unparse(it)[:120]
+    idx = cv = None
+    ok = True
+    if isinstance(it, ast.Call) and ast.unparse(it.func) == "enumerate" and len(it.args) == 1 and isinstance(l.target, ast.Tuple) and len(l.target.elts) == 2 \
+            and all(isinstance(e, ast.Name) for e in l.target.elts):
+        idx, cv = l.target.elts[0].id, l.target.elts[1].id
+        ok = is_res_prefix(it.args[0])
+    elif isinstance(it, ast.Call) and ast.unparse(it.func) == "range" and len(it.args) == 1 and isinstance(l.target, ast.Name) and ng.key(it.args[0]) == K("len(self.constraints)"):
+        idx = l.target.id
+        for st in l.body:
+            if isinstance(st, ast.Assign) and len(st.targets) == 1 and isinstance(st.targets[0], ast.Name) and isinstance(st.value, ast.Subscript) \
+                    and ast.unparse(st.value.slice) == idx and is_res(st.value.value):
+                cv = st.targets[0].id
+                break
+    if idx is None or cv is None:
+        return None
+    sv = mv = None
+    for st in l.body:
+        if not (isinstance(st, ast.Assign) and len(st.targets) == 1):
+            continue
+        t, v = st.targets[0], st.value
+        if isinstance(t, ast.Tuple) and len(t.elts) == 3 and all(isinstance(e, ast.Name) for e in t.elts) and ast.unparse(v) == "self.constraints[%s]" % idx:
+            sv, mv = t.elts[1].id, t.elts[2].id
+        elif isinstance(t, ast.Name) and ast.unparse(v) == "self.constraints[%s][1]" % idx:
+            sv = t.id
+        elif isinstance(t, ast.Name) and ast.unparse(v) == "self.constraints[%s][2]" % idx:
+            mv = t.id
+    if sv is None or mv is None:
+        return None
+    return l, cv, sv, mv, ok, "for %s in %s: ... self.constraints[%s]" % (ast.unparse(l.target), ast.unparse(it)[:80], idx)
+
+
+
 @rule("R04.10", min_instances=7, desc="OptiWrapper stores each constraint once (constant-true dropped, constant-false raises) and replays each stored constraint once, in order")
 def r04_10(ctx):
     prog = ctx.prog
@@ -721,12 +778,11 @@ def r04_10(ctx):
     g = prog.own_method("OptiWrapper", "transcribe_placeholders")
     scg = ctx.scope(g)
     ng = ctx.norm(g)
-    loops = [l for l in walk_no_nested(g.node) if isinstance(l, ast.For) and "self.constraints" in ast.unparse(l.iter) and "zip" in ast.unparse(l.iter)]
-    ctx.check(len(loops) == 1, "transcribe_placeholders replays the stored constraints in one loop", detail="replay loop", expected="for c, scale, meta in zip(res[:n], scales, metas)", found=str(len(loops)), fi=g)
-    if loops:
-        l = loops[0]
+    rl = replay_loop(ctx, g)
+    ctx.check(rl is not None, "transcribe_placeholders replays the stored constraints in one loop", detail="replay loop", expected="for c, scale, meta in zip(res[:n], scales, metas)", found="not recognised" if rl is None else "found", fi=g)
+    if rl:
+        l, cv, sv, mv, pair_ok, text = rl
         subs = [c for c in ast.walk(l) if isinstance(c, ast.Call) and ast.unparse(c.func) == "Opti.subject_to"]
-        cv = l.target.elts[0].id if isinstance(l.target, ast.Tuple) else None
         ok = len(subs) == 1 and len(subs[0].args) == 2 and ast.unparse(subs[0].args[1]) == cv
         ctx.check(ok, "transcribe_placeholders hands each constraint to Opti exactly once", detail="replay multiplicity", expected="Opti.subject_to(self, c) once per iteration",
                   found="; ".join(ast.unparse(s) for s in subs), fi=g)
@@ -737,14 +793,9 @@ def r04_10(ctx):
             okc = okc and any("is_constant()" in t and "is_one()" in t for t in gs)
         ctx.check(okc and len(conts) <= 1, "transcribe_placeholders skips only constant-true constraints", detail="constraint skipped on replay",
                   expected="continue only under MX(c).is_constant() and MX(c).is_one()", found=str(len(conts)), fi=g)
-        # the zip pairs res[:n_constr] with the scales and metas of the same list, same order
-        it = l.iter
-        K = lambda t: Norm(None).key(ast.parse(t, mode="eval").body)
-        ok = isinstance(it, ast.Call) and len(it.args) == 3 and isinstance(it.args[0], ast.Subscript) and \
-            ng.key(it.args[0].value).startswith(K("placeholders([c[0] for c in self.constraints])")[:-2]) and \
-            Norm(None).key(it.args[1]) == K("[c[1] for c in self.constraints]") and Norm(None).key(it.args[2]) == K("[c[2] for c in self.constraints]")
-        ctx.check(ok, "transcribe_placeholders pairs expression, scale and meta of the same stored constraint", detail="replay pairing",
-                  expected="zip(res[:n_constr], [c[1]...], [c[2]...])", found=ast.unparse(it)[:120], fi=g)
+        # expression, scale and meta come from the same stored constraint, in order
+        ctx.check(pair_ok, "transcribe_placeholders pairs expression, scale and meta of the same stored constraint", detail="replay pairing",
+                  expected="zip(res[:n_constr], [c[1]...], [c[2]...])", found=text, fi=g)
         reset = [c for c in walk_no_nested(g.node) if isinstance(c, ast.Call) and ast.unparse(c.func) == "Opti.subject_to" and len(c.args) == 1]
         ctx.check(len(reset) == 1 and scg.order[reset[0]] < scg.order[l], "transcribe_placeholders clears Opti's constraints before replay", detail="constraints duplicated on re-run",
                   expected="Opti.subject_to(self) before the loop", found=str(len(reset)), fi=g)
